@@ -179,6 +179,17 @@ _site_cache = {}
 def crash_site(stderr):
     """Innermost frame inside the repository from an ASan/UBSan stack trace."""
     txt = stderr.decode("utf-8", "replace")
+    if "stack-overflow" in txt:
+        # the innermost frame of a runaway recursion is arbitrary: name the most frequent repository function instead
+        counts = {}
+        for line in txt.splitlines():
+            m = re.match(r"\s*#\d+ 0x[0-9a-f]+ in (.+?) (/\S+?):(\d+)", line)
+            if m and "/src/" in m.group(2):
+                fn = re.sub(r"\(.*$", "", m.group(1))
+                counts[fn] = counts.get(fn, 0) + 1
+        if counts:
+            return "stack-overflow:" + sorted(counts.items(), key=lambda kv: (-kv[1], kv[0]))[0][0]
+        return "stack-overflow"
     for line in txt.splitlines():
         m = re.match(r"\s*#\d+ 0x[0-9a-f]+ in (.+?) (/\S+?):(\d+)", line)
         if m and "/src/" in m.group(2) and "sanitizer" not in m.group(2):
